@@ -81,7 +81,8 @@ Inductive binop := OAdd | OSub | OMul | ODiv | ORem | OAnd | OOr | OXor | OShl |
 (* the C library functions the translated code calls; C locale *)
 Inductive builtin := BIsspace | BIsdigit | BIsalpha | BIsupper | BIslower | BIsalnum | BIsprint
                    | BTolower | BToupper | BStrlen | BStrchr
-                   | BMalloc | BFree | BMemcpy | BMemmove | BMemset.     (* sizes in CELLS: the translator divides the byte counts *)
+                   | BMalloc | BFree | BMemcpy | BMemmove | BMemset
+                   | BStrcmp | BStrncmp | BStrrchr | BStrcpy.     (* sizes in CELLS: the translator divides the byte counts *)
 
 Definition b2z (b : bool) : Z := if b then 1 else 0.
 Definition chk (t : ity) (z : Z) : res Z :=
@@ -161,8 +162,41 @@ Definition blk_from (m : mem) (b : nat) (o : Z) : res (list val) :=
   | None => Err EOob
   | Some blk => if (o <? 0) || (Z.of_nat (length blk) <? o) then Err EOob else Ok (skipn (Z.to_nat o) blk)
   end.
+(* strcmp/strncmp on two cell lists: unsigned byte comparison up to the first difference, a terminator,
+   or n cells; the result is -1, 0 or 1 (C promises only the sign) *)
+Fixpoint cmp_cells (a b : list val) (n : nat) : res Z :=
+  match n with
+  | O => Ok 0
+  | S k =>
+      match a, b with
+      | VInt x :: a', VInt y :: b' =>
+          let x' := wrap U8 x in let y' := wrap U8 y in
+          if x' <? y' then Ok (-1) else if y' <? x' then Ok 1 else if x' =? 0 then Ok 0 else cmp_cells a' b' k
+      | [], _ | _, [] => Err EOob
+      | VUndef :: _, _ | _, VUndef :: _ => Err EUndef
+      | _, _ => Err EType
+      end
+  end.
+Fixpoint scanlast (blk : list val) (c : Z) (n : nat) (last : option nat) : res (option nat) :=   (* strrchr *)
+  match blk with
+  | [] => Err EOob
+  | VInt z :: r => let last' := if wrap I8 z =? c then Some n else last in
+                   if z =? 0 then Ok last' else scanlast r c (S n) last'
+  | VUndef :: _ => Err EUndef
+  | VPtr _ _ :: _ => Err EType
+  end.
+
 Definition do_builtin (f : builtin) (args : list val) (m : mem) : res val :=
   match f, args with
+  | BStrcmp, [VPtr b1 o1; VPtr b2 o2] =>
+      do l1 <- blk_from m b1 o1; do l2 <- blk_from m b2 o2;
+      do r <- cmp_cells l1 l2 (S (Nat.max (length l1) (length l2))); Ok (VInt r)
+  | BStrncmp, [VPtr b1 o1; VPtr b2 o2; VInt n] =>
+      if n <? 0 then Err EShape else
+      do l1 <- blk_from m b1 o1; do l2 <- blk_from m b2 o2; do r <- cmp_cells l1 l2 (Z.to_nat n); Ok (VInt r)
+  | BStrrchr, [VPtr b o; VInt c] =>
+      do l <- blk_from m b o; do r <- scanlast l (wrap I8 c) O None;
+      Ok (match r with Some n => VPtr b (o + Z.of_nat n) | None => VInt 0 end)
   | BStrlen, [VPtr b o] => do l <- blk_from m b o; do n <- scan0 l O; Ok (VInt (Z.of_nat n))
   | BStrchr, [VPtr b o; VInt c] =>
       do l <- blk_from m b o; do r <- scanc l (wrap I8 c) O;
@@ -216,7 +250,10 @@ Definition do_builtin_m (f : builtin) (args : list val) (m : mem) : res (val * m
   | BMemset, [VPtr bd od; VInt c; VInt n] =>
       if n <? 0 then Err EOob else
       do m' <- write_cells m bd od (repeat (VInt (wrap U8 c)) (Z.to_nat n)); Ok (VPtr bd od, m')
-  | BMalloc, _ | BFree, _ | BMemcpy, _ | BMemmove, _ | BMemset, _ => Err EShape
+  | BStrcpy, [VPtr bd od; VPtr bs os] =>
+      do l <- blk_from m bs os; do n <- scan0 l O;
+      do m' <- write_cells m bd od (firstn (S n) l); Ok (VPtr bd od, m')
+  | BMalloc, _ | BFree, _ | BMemcpy, _ | BMemmove, _ | BMemset, _ | BStrcpy, _ => Err EShape
   | _, _ => do v <- do_builtin f args m; Ok (v, m)
   end.
 
